@@ -330,9 +330,9 @@ def main(sys_args=None):
                 args.items[0],
                 args.print_format,
             ):
-                outs.append(item)
                 if len(outs) >= args.max_results:
                     break
+                outs.append(item)
             out = '\n'.join(outs)
         elif args.items and args.duration_print_format:
             out = date_time_oper.format_duration_str(
